@@ -913,3 +913,206 @@ Example aggr_init_example :
   aggr_groups 4 1 [0; 1; 0; 1] = [[0; 2]; [1; 3]] /\
   aggr_groups 4 4 [0; 0; 0; 0] = [] /\ unaggregated 4 0 [0; 0; 0; 0] = [0; 1; 2; 3].
 Proof. repeat split; reflexivity. Qed.
+
+(* ================================================================== *)
+(* 8. request level: an aggregated collective put == the requested     *)
+(*    elements written at their row-major offsets                      *)
+(* ================================================================== *)
+Lemma flatten_req_none g start count :
+  flatten_req g start count None = flatten_req g start count (Some (ones (length (g_shape g)))).
+Proof.
+  unfold flatten_req. destruct (g_shape g) as [|s0 ss] eqn:Es; [reflexivity|].
+  destruct (g_isrec g); [|reflexivity].
+  cbn [length]. rewrite ones_S. cbn [hd]. reflexivity.
+Qed.
+
+Lemma dk_scatter_ext xsz offs : forall bs a b,
+  disk_eq a b -> disk_eq (dk_scatter a xsz offs bs) (dk_scatter b xsz offs bs).
+Proof.
+  induction offs as [|o r IH]; intros bs a b H; [exact H|].
+  cbn [dk_scatter]. apply IH. now apply dk_write_ext.
+Qed.
+
+Lemma dk_scatter_app xsz : forall o1 o2 bs d, 0 <= xsz ->
+  dk_scatter d xsz (o1 ++ o2) bs =
+  dk_scatter (dk_scatter d xsz o1 bs) xsz o2 (zskipn (Zlen o1 * xsz) bs).
+Proof.
+  induction o1 as [|o r IH]; intros o2 bs d Hx.
+  - cbn [app dk_scatter]. rewrite Zlen_nil. now rewrite zskipn_nonpos by lia.
+  - cbn [app dk_scatter]. rewrite IH by assumption. f_equal.
+    pose proof (Zlen_nonneg r). rewrite Zlen_cons. rewrite zskipn_zskipn by nia. f_equal. lia.
+Qed.
+
+(* one (offset, k*xsz) pair written at once == its k elements written one by one *)
+Lemma tile_as_elems xsz : 0 < xsz -> forall k o data d, k * xsz <= Zlen data -> 0 <= k ->
+  disk_eq (dk_write d o (zfirstn (k * xsz) data))
+          (dk_scatter d xsz (map (fun j => o + j * xsz) (zrange 0 k)) data).
+Proof.
+  intros Hx k o data d Hlen Hk. revert o data d Hlen.
+  pattern k. apply natlike_ind; [| |exact Hk].
+  - intros o data d _. cbn. rewrite zfirstn_nonpos by lia. apply disk_eq_refl.
+  - intros n Hn IH o data d Hlen.
+    replace (Z.succ n) with (n + 1) in * by lia.
+    rewrite zrange_succ by lia.
+    replace (map (fun j => o + j * xsz) (0 :: zrange (0 + 1) n))
+      with (o :: map (fun j => (o + xsz) + j * xsz) (zrange 0 n)).
+    2:{ cbn [map]. f_equal; [lia|]. rewrite (zrange_shift (0 + 1) n), map_map.
+        apply map_ext. intros j. lia. }
+    cbn [dk_scatter].
+    replace ((n + 1) * xsz) with (xsz + n * xsz) by lia.
+    rewrite zfirstn_add by nia.
+    eapply disk_eq_trans; [apply dk_write_app|].
+    rewrite Zlen_zfirstn. replace (Z.max 0 (Z.min xsz (Zlen data))) with xsz by nia.
+    apply (IH (o + xsz)). rewrite Zlen_zskipn. nia.
+Qed.
+
+Definition mult_of (xsz : Z) (p : Z * Z) : Prop := exists k, 0 <= k /\ snd p = k * xsz.
+
+Lemma pair_elems_cons xsz o l ps :
+  pair_elems xsz ((o, l) :: ps) = map (fun j => o + j * xsz) (zrange 0 (l / xsz)) ++ pair_elems xsz ps.
+Proof. reflexivity. Qed.
+
+(* a rank's own pairs written tile by tile == its elements written one by one *)
+Lemma tiles_as_elems xsz : 0 < xsz -> forall pairs data d,
+  Forall (mult_of xsz) pairs -> zsum (map snd pairs) <= Zlen data ->
+  disk_eq (write_tiles (tiles_of pairs data) d) (dk_scatter d xsz (pair_elems xsz pairs) data).
+Proof.
+  intros Hx. induction pairs as [|[o l] ps IH]; intros data d HF Hs; [apply disk_eq_refl|].
+  inversion HF as [|? ? [k [Hk Hl]] HF']; subst. cbn [snd] in Hl. subst l.
+  cbn [map zsum snd] in Hs.
+  assert (Hn : 0 <= zsum (map snd ps)).
+  { clear -HF' Hx. induction HF' as [|q r [k [Hk Hq]] _ IH']; cbn [map zsum]; nia. }
+  cbn [tiles_of]. rewrite write_tiles_cons. cbn [fst snd].
+  rewrite pair_elems_cons. rewrite Z.div_mul by lia.
+  rewrite dk_scatter_app by lia.
+  rewrite Zlen_map, Zlen_zrange. replace (Z.max 0 k) with k by lia.
+  eapply disk_eq_trans; [apply IH; [exact HF'|rewrite Zlen_zskipn; nia]|].
+  apply dk_scatter_ext. apply tile_as_elems; try assumption; nia.
+Qed.
+
+Lemma last_In_cons {A} : forall (l : list A) a d, In (last (a :: l) d) (a :: l).
+Proof.
+  induction l as [|b l IH]; intros a d; [now left|].
+  right. change (last (a :: b :: l) d) with (last (b :: l) d). apply IH.
+Qed.
+
+Lemma flatten_subarray_mult el b dimlen start count stride :
+  Forall (fun c => 0 <= c) count ->
+  Forall (mult_of el) (flatten_subarray el b dimlen start count stride).
+Proof.
+  intros Hc. unfold flatten_subarray. destruct dimlen as [|s0 ss].
+  - constructor; [|constructor]. exists 1. cbn [snd]. lia.
+  - destruct (_ =? 0); [constructor|].
+    rewrite Forall_map. apply Forall_forall. intros o _. cbn [snd].
+    destruct (last stride 1 =? 1).
+    + exists (last count 0). split; [|reflexivity].
+      destruct count as [|c cs]; [cbn [last]; lia|].
+      assert (Hin : In (last (c :: cs) 0) (c :: cs)) by apply last_In_cons.
+      rewrite Forall_forall in Hc. apply Hc. exact Hin.
+    + exists 1. lia.
+Qed.
+
+Lemma flatten_req_mult g start count stride :
+  0 < g_xsz g -> Forall (fun c => 0 <= c) count ->
+  Forall (mult_of (g_xsz g)) (flatten_req g start count (Some stride)).
+Proof.
+  intros Hx Hc. unfold flatten_req. destruct (g_shape g) as [|s0 ss].
+  - constructor; [|constructor]. exists 1. cbn [snd]. lia.
+  - destruct (g_isrec g).
+    + apply Forall_flat_map. apply Forall_forall. intros j _.
+      apply flatten_subarray_mult. destruct count; [constructor|]. inversion Hc; assumption.
+    + now apply flatten_subarray_mult.
+Qed.
+
+Lemma zsum_mult xsz : 0 < xsz -> forall pairs, Forall (mult_of xsz) pairs ->
+  zsum (map snd pairs) = Zlen (pair_elems xsz pairs) * xsz.
+Proof.
+  intros Hx. induction 1 as [|[o l] ps [k [Hk Hl]] _ IH]; [reflexivity|].
+  cbn [snd] in Hl. subst l. cbn [map zsum snd]. rewrite pair_elems_cons, Zlen_app, Zlen_map, Zlen_zrange.
+  rewrite Z.div_mul by lia. rewrite IH. nia.
+Qed.
+
+(* a request as the API hands it over: geometry, start, count, stride (None = NULL pointer),
+   and the packed external data of the request *)
+Definition req_stride (r : put_req) : list Z :=
+  let '(g, s, c, t, data) := r in stride_or_ones (length (g_shape g)) t.
+
+Definition req_fits (r : put_req) : Prop :=
+  let '(g, s, c, t, data) := r in
+  wf_geom g /\ req_ok (g_shape g) s c (stride_or_ones (length (g_shape g)) t) /\
+  Zlen data = zprod c * g_xsz g.
+
+(* SPEC of one put: element k of the data stream lands at the row-major offset of element k *)
+Definition spec_put (d : disk) (r : put_req) : disk :=
+  let '(g, s, c, t, data) := r in
+  if zprod c =? 0 then d
+  else dk_scatter d (g_xsz g) (spec_offsets g s c (stride_or_ones (length (g_shape g)) t)) data.
+
+Lemma contrib_of_req_fits r : req_fits r ->
+  contrib_fits (contrib_of_req r) /\
+  forall d, disk_eq (write_own d (contrib_of_req r)) (spec_put d r).
+Proof.
+  destruct r as [[[[g s] c] t] data]. intros (Hwf & Hreq & Hlen).
+  unfold contrib_of_req, spec_put. destruct (zprod c =? 0) eqn:Ez.
+  - split; [split; [constructor|reflexivity]|]. intros d. apply disk_eq_refl.
+  - assert (Hz : zprod c <> 0) by lia.
+    pose proof Hwf as (Hx & _).
+    assert (Hc : Forall (fun x => 0 <= x) c) by (eapply req_ok_count_nonneg; eassumption).
+    set (st := stride_or_ones (length (g_shape g)) t) in *.
+    assert (Hfl : flatten_req g s c t = flatten_req g s c (Some st)).
+    { destruct t as [t|]; [reflexivity|]. unfold st. cbn [stride_or_ones]. apply flatten_req_none. }
+    rewrite Hfl.
+    pose proof (flatten_req_mult g s c st Hx Hc) as Hm.
+    pose proof (flatten_req_spec g s c st Hwf Hreq Hz) as Hspec.
+    pose proof (zsum_mult (g_xsz g) Hx _ Hm) as Hsum.
+    rewrite Hspec in Hsum.
+    assert (Hl : Zlen (spec_offsets g s c st) = zprod c).
+    { unfold Zlen. rewrite (spec_offsets_length_req g s c st Hreq).
+      rewrite Z2Nat.id; [reflexivity|]. apply Proofs_Lists.zprod_nonneg. exact Hc. }
+    rewrite Hl in Hsum.
+    split.
+    + split; cbn [fst snd].
+      * eapply Forall_impl; [|exact Hm]. intros p [k [Hk Hp]]. nia.
+      * lia.
+    + intros d. unfold write_own. cbn [fst snd]. rewrite <- Hspec.
+      apply tiles_as_elems; try assumption. lia.
+Qed.
+
+(* C10 aggr_equiv at request level: whatever the number of ranks and their assignment to
+   aggregators, a collective put under intra-node aggregation leaves the file that results from
+   writing, for every rank, element k of its data at the row-major offset of element k of its
+   request - provided the flattened requests are pairwise disjoint *)
+Theorem aggr_put_equiv : forall (reqs : list put_req) (groups : list (list put_req)) (singles : list put_req) d,
+  Forall req_fits reqs ->
+  Permutation (concat groups ++ singles) reqs ->
+  pdisj (all_tiles (map contrib_of_req reqs)) ->
+  disk_eq (aggr_writes d (map (map contrib_of_req) groups) (map contrib_of_req singles))
+          (fold_left spec_put reqs d).
+Proof.
+  intros reqs groups singles d HF HP Hd.
+  eapply disk_eq_trans.
+  - apply (aggr_equiv (map contrib_of_req reqs)).
+    + rewrite Forall_map. eapply Forall_impl; [|exact HF]. intros r Hr. now apply contrib_of_req_fits.
+    + rewrite <- concat_map, <- map_app. now apply Permutation_map.
+    + exact Hd.
+  - unfold spec_writes. clear HP Hd groups singles. revert d.
+    induction reqs as [|r rs IH]; intros d; [apply disk_eq_refl|].
+    inversion HF as [|? ? Hr HF']; subst. cbn [map fold_left].
+    eapply disk_eq_trans; [|apply IH; exact HF'].
+    fold (spec_writes (write_own d (contrib_of_req r)) (map contrib_of_req rs)).
+    fold (spec_writes (spec_put d r) (map contrib_of_req rs)).
+    apply spec_writes_ext. now apply contrib_of_req_fits.
+Qed.
+
+Example aggr_put_equiv_example :
+  let g := mkgeom 512 4 [0; 3] 12 1 in
+  let r0 : put_req := (g, [0; 0], [2; 3], Some [2; 1], [0;0;0;1; 0;0;0;2; 0;0;0;3; 0;0;0;4; 0;0;0;5; 0;0;0;6]) in
+  let r1 : put_req := (g, [1; 1], [2; 2], Some [2; 1], [0;0;0;7; 0;0;0;8; 0;0;0;9; 0;0;0;10]) in
+  Forall req_fits [r0; r1] /\
+  dk_read (aggr_writes empty_disk [[contrib_of_req r1; contrib_of_req r0]] []) 512 48 =
+  dk_read (fold_left spec_put [r0; r1] empty_disk) 512 48 /\
+  dk_read (fold_left spec_put [r0; r1] empty_disk) 536 12 = [0;0;0;4; 0;0;0;5; 0;0;0;6].
+Proof.
+  cbv zeta. split; [|split; reflexivity].
+  repeat constructor; cbn; try lia; try (repeat constructor; lia); intros _; reflexivity.
+Qed.
